@@ -310,3 +310,14 @@ let () =
                 "(" ^ show_bool (Sem.valid_b n s) ^ " " ^ show_bool (NestSem4.groups2_own_b so si ks s) ^ ")")
       (match seqs with L l -> l | _ -> failwith "seqs")
     | _ -> "!args")
+let () =
+  (* (created GEOM (CINFO ...)) -> ((id kind param wb) ...): Front/Create.v [created_constraints]: the orig_constraints of the
+     block that _create builds from arguments with these constraints, GEOM = its get_geometry(0) *)
+  register "created" (function [g; cs] ->
+    let g = (match Wire_flat.geom_of_sexp g with Some g -> g | None -> failwith "geometry") in
+    let a = { Create.ca_design = []; Create.ca_crossings = []; Create.ca_sustains = []; Create.ca_weights = [];
+              Create.ca_constraints = Stdlib.List.map (fun c -> (Create.OOwn, cinfo_of_sexp c)) (match cs with L l -> l | _ -> failwith "cs");
+              Create.ca_rcc = true; Create.ca_mode = Trials.MWeight; Create.ca_alignment = Flat.EqualPreamble } in
+    show_list (fun c -> "(" ^ show_nat c.Create.c_id ^ " " ^ show_kind c.Create.c_kind ^ " " ^ show_z c.Create.c_param
+                        ^ " " ^ show_geom c.Create.c_wb ^ ")") (Create.created_constraints g a)
+    | _ -> "!args")
